@@ -252,6 +252,72 @@ def C02(c):
             c.disagreements.append({"stream": "ckk-search-trace", "alg": "ckk", "case": {"vals": e["vals"], "p": e["p"]}, "fmt": fmt, "outtype": ot,
                                     "impl": got, "model": want, "request": line})
         c.sample({"request": line, "impl": got, "model": want})
+    # the recursive searches snp and rnp: the sequence of their calls of the two-way solvers (ckk_optimal(items), and for rnp
+    # ckk_generator(items, bound)) with the values of the items passed, in order - recorded by wrapping the two module-level names from
+    # outside - against the trace of the models snpT / rnpFT (SNPTraceProofs.snpT_fst, rnpFT_fst: dropping the trace gives snp / rnpF)
+    smods = {"snp": importlib.import_module("prtpy.partitioning.sequential_number_partitioning_sy"),
+             "rnp": importlib.import_module("prtpy.partitioning.recursive_number_partitioning_sy")}
+    scases = [e for e in rnd + four if e["alg"] in ("snp", "rnp") and e["p"]["k"] <= 5 and e["vals"]][: c.n(400, 4000)]
+    sreqs, sctx = [], []
+    for e in scases:
+        for fmt in ("list", "dict_str"):
+            names = names_for(fmt, e["vals"], random.Random(sha([e["vals"], fmt])))
+            ids = ids_for(fmt, e["vals"], names)
+            sreqs.append(e["alg"] + "_trace " + ALGS[e["alg"]].request(e, ids, contents=True, outtype="Sums").split(" ", 1)[1])
+            sctx.append((e, fmt, names))
+    sanswers = model_query(sreqs)
+    for (e, fmt, names), line, ans in zip(sctx, sreqs, sanswers):
+        m = smods[e["alg"]]
+        events = []
+        o_opt, o_gen = m.ckk_optimal, getattr(m, "ckk_generator", None)
+
+        def w_opt(*a, events=events, o_opt=o_opt, **kw):
+            b, its = kw.get("binner", a[0] if a else None), kw.get("items", a[2] if len(a) > 2 else None)
+            events.append(["optimal", [num(b.valueof(x)) for x in its]])
+            return o_opt(*a, **kw)
+
+        def w_gen(*a, events=events, o_gen=o_gen, **kw):
+            b, its = kw.get("binner", a[0] if a else None), kw.get("items", a[2] if len(a) > 2 else None)
+            events.append(["generator", [num(b.valueof(x)) for x in its], num(-kw.get("best_difference_so_far", 0))])
+            return o_gen(*a, **kw)
+
+        def run(e=e, fmt=fmt, names=names, m=m):
+            m.ckk_optimal = w_opt
+            if o_gen is not None:
+                m.ckk_generator = w_gen
+            try:
+                items, valueof = present(fmt, e["vals"], names)
+                kw = {"valueof": valueof} if valueof is not None else {}
+                return prtpy.partition(algorithm=ALGS[e["alg"]].fn(), numbins=e["p"]["k"], items=items, outputtype=out.Sums, **kw)
+            finally:
+                m.ckk_optimal = o_opt
+                if o_gen is not None:
+                    m.ckk_generator = o_gen
+        try:
+            r = timed(run)
+            got = r if isinstance(r, dict) else {"sums": [num(x) for x in r], "trace": events}
+        except Exception as ex:      # noqa
+            got = {"error": exc_name(ex)}
+        finally:
+            m.ckk_optimal = o_opt
+            if o_gen is not None:
+                m.ckk_generator = o_gen
+        c.evaluations += 1
+        if isinstance(got, dict) and got.get("error") == "Timeout":
+            c.call_timeouts += 1
+            continue
+        want = ans["result"] if (isinstance(ans.get("result"), dict) and "error" in ans["result"]) else {"sums": ans["result"], "trace": ans["trace"]}
+        c.corr_cases += 1
+        c.stats["snp-rnp-search-trace"]["cases"] += 1
+        c.stats["snp-rnp-search-trace"][f"{e['alg']}/{fmt}"] += 1
+        c.stats["snp-rnp-search-trace"]["events:" + ("0" if not want.get("trace") else "1-9" if len(want["trace"]) < 10 else "10-99" if len(want["trace"]) < 100 else ">=100")] += 1
+        c.distinct.add(line)
+        if len(want.get("trace", [])) >= 3:
+            c.nontrivial.add(line)
+        if got != want:
+            c.disagreements.append({"stream": "snp-rnp-search-trace", "alg": e["alg"], "case": {"vals": e["vals"], "p": e["p"]}, "fmt": fmt, "outtype": "Sums",
+                                    "impl": got, "model": want, "request": line})
+        c.sample({"request": line, "impl": got, "model": want})
 
 
 # ------------------------------------------------------------------------------------------------ C04
@@ -515,6 +581,22 @@ def C07(c):
             kind = "format-dependence" if not J._is_err(got) else "exception:" + got["error"]
             c.check_direct(case["alg"], dict(case["p"], vals=case["vals"], alg=case["alg"], fmt=fmt), kind, ok, got,
                            f"same multiset of sums as for list input: {ref}")
+    # numpy arrays of an UNSIGNED integer type: the same values once more (known finding KF7 lives here: ilp; before fix F12 also dp with an
+    # objective that negates a sum; every other algorithm must agree with list input as usual)
+    ucases = [e for e in cs if ALGS[e["alg"]].kind == "partition" and e["alg"] != "cbldm" and e["p"].get("cut") is None and e["vals"]][: c.n(150, 1500)]
+    ucases += [{"alg": a, "vals": v, "p": {"k": 2, "obj": o}} for a in ("dp", "ilp") for v in ([38, 38], [12, 6, 6, 1, 17, 3]) for o in ("maxmin", "ksmall:1", "minmax", "diff")]
+    utasks = [(case, fmt, "SortedSums", names_for(fmt, case["vals"], random.Random(sha([case["vals"], fmt])))) for case in ucases for fmt in ("list", "uarray")]
+    ures = iter(impl_map(utasks))
+    for case in ucases:
+        ref, got = next(ures), next(ures)
+        if case["alg"] == "dp" and isinstance(got, list) and isinstance(ref, list):
+            ok = obj_value(case["p"]["obj"], got) == obj_value(case["p"]["obj"], ref)
+        else:
+            ok = got == ref
+        c.stats["unsigned-array"]["cases"] += 1
+        kind = "format-dependence" if not J._is_err(got) else "exception:" + got["error"]
+        c.check_direct(case["alg"], dict(case["p"], vals=case["vals"], alg=case["alg"], fmt="uarray"), kind, ok, got,
+                       f"same multiset of sums as for list input: {ref}")
     # ... and the same through the full output (the contents-keeping manager): the sums of the returned bins in every format
     for d in full_sums.values():
         case, ref = d["case"], d.get("list")
@@ -577,7 +659,7 @@ def C08(c):
     c.corr("exhaustive", ex, combos_of(["list"], [PT]), judge=judge)
     c.exhaustive_scopes.append(f"all multisets of 1..{c.n(5,6)} values from 0..{c.n(4,6)} x k in {c.n([1,2,3],[1,2,3,4])}")
     c.corr("random", C.random_part_cases(rng, algs, c.n(300, 4000), nmax=c.n(10, 12)), combos_of(["list"], [PT]), judge=judge)
-    c.corr("random-named", C.random_part_cases(rng, algs, c.n(100, 1000), nmax=c.n(10, 12)), combos_of(["dict_str"], [PT]), judge=judge_named(judge))
+    c.corr("random-named", C.random_part_cases(rng, algs, c.n(100, 1000), nmax=c.n(10, 12)), combos_of(["dict_str", "array_valueof", "array", "uarray"], [PT]), judge=judge_named(judge))
     # planted instances with known optimum (k full bins of equal sum T => OPT_max = OPT_min = T) and the LPT tight family
     planted = []
     for _ in range(c.n(60, 600)):
@@ -653,7 +735,7 @@ def C09(c):
     c.corr("exhaustive", ex, combos_of(["list"], [PT]), judge=judge)
     c.exhaustive_scopes.append(f"every arrival order of every multiset of <= {c.n(4,5)} values from 1..B, B in {c.n([4,6],[4,6,7])}")
     c.corr("random", C.random_pack_cases(rng, C.PACKERS, c.n(400, 5000), nmax=c.n(10, 12)), combos_of(["list"], [PT]), judge=judge)
-    c.corr("random-named", C.random_pack_cases(rng, C.PACKERS, c.n(150, 1500), nmax=c.n(10, 12)), combos_of(["dict_str"], [PT]), judge=judge_named(judge))
+    c.corr("random-named", C.random_pack_cases(rng, C.PACKERS, c.n(150, 1500), nmax=c.n(10, 12)), combos_of(["dict_str", "array_valueof", "array", "uarray"], [PT]), judge=judge_named(judge))
     planted = []
     for _ in range(c.n(100, 1000)):
         B = rng.choice([10, 20, 100, 1000])
@@ -708,7 +790,7 @@ def C10(c):
     c.corr("exhaustive", ex, combos_of(["list"], [PT]), judge=judge)
     c.exhaustive_scopes.append(f"all multisets of <= {c.n(5,6)} values from 1..B+2, B in {c.n([6],[6,12])}")
     c.corr("random", C.random_cover_cases(rng, C.COVERS, c.n(300, 3000), nmax=c.n(11, 13)), combos_of(["list"], [PT]), judge=judge)
-    c.corr("random-named", C.random_cover_cases(rng, C.COVERS, c.n(150, 1500), nmax=c.n(11, 13)), combos_of(["dict_str"], [PT]), judge=judge_named(judge))
+    c.corr("random-named", C.random_cover_cases(rng, C.COVERS, c.n(150, 1500), nmax=c.n(11, 13)), combos_of(["dict_str", "array_valueof", "array", "uarray"], [PT]), judge=judge_named(judge))
     planted = []
     for _ in range(c.n(100, 1000)):
         B = rng.choice([12, 20, 100, 1000])
@@ -770,6 +852,8 @@ def C12(c):
 
 # ------------------------------------------------------------------------------------------------ C20
 def _seq_as(kind, sums):
+    if kind == "uarray":
+        return np.array(sums, dtype=np.uint64)
     return list(sums) if kind == "list" else (tuple(sums) if kind == "tuple" else np.array(sums, dtype=np.int64))
 
 
@@ -792,7 +876,7 @@ def C20(c):
         is_sorted = all(sums[i] <= sums[i + 1] for i in range(n - 1))
         for o in objs:
             for flag in ([0, 1] if is_sorted else [0]):
-                kind = rng.choice(["list", "tuple", "array"])
+                kind = rng.choice(["list", "tuple", "array", "uarray"])
                 def thunk(o=o, sums=sums, flag=flag, kind=kind):
                     return num(objective_impl(o).value_to_minimize(_seq_as(kind, sums), are_sums_in_ascending_order=bool(flag)))
                 triples.append((f"objvalue obj={o} sorted={flag} sums={f_nats(sums)}", thunk,
@@ -832,7 +916,7 @@ def C20(c):
         for sums in seq:
             srt = rng.random() < 0.4
             v = sorted(sums) if srt else list(sums)
-            got = num(ob.value_to_minimize(_seq_as(rng.choice(["list", "tuple", "array"]), v), are_sums_in_ascending_order=srt))
+            got = num(ob.value_to_minimize(_seq_as(rng.choice(["list", "tuple", "array", "uarray"]), v), are_sums_in_ascending_order=srt))
             hist.append(v)
             c.check_direct("objective.value_to_minimize", {"vals": v, "obj": o, "sorted": int(srt), "earlier_calls_on_the_same_object": list(hist[:-1])},
                            "documented-quantity-after-earlier-calls", got == obj_value(o, sums), got, f"documented function of the sums: {obj_value(o, sums)}")
@@ -841,7 +925,7 @@ def C20(c):
         n = len(sums)
         for o in ["maxmin", "minmax", "diff", f"ksmall:{rng.randint(1, n + 2)}", f"klarge:{rng.randint(1, n + 2)}"]:
             sh = list(sums); rng.shuffle(sh)
-            got = num(objective_impl(o).value_to_minimize(_seq_as(rng.choice(["list", "tuple", "array"]), sh)))
+            got = num(objective_impl(o).value_to_minimize(_seq_as(rng.choice(["list", "tuple", "array", "uarray"]), sh)))
             want = obj_value(o, sums)
             c.check_direct("objective.value_to_minimize", {"vals": sh, "obj": o}, "documented-quantity", got == want, got,
                            f"documented function of the sums: {want}")
@@ -1569,7 +1653,7 @@ def C14(c):
     c.exhaustive_scopes.append(f"greedy/round-robin: multisets of <= {c.n(5,6)} values 0..{c.n(4,5)}, k in {c.n([1,2,3],[1,2,3,4])}; fit heuristics: every arrival order of "
                                f"multisets of <= {c.n(4,5)} values 1..B, B in {c.n([4,6],[4,6,7])}; covers: multisets of <= {c.n(5,6)} values 1..B+2, B in {c.n([6,7],[6,7,12])} (thresholds B/2, B/3 hit exactly; odd B: floor(B/2) below the threshold)")
     named = C.random_part_cases(rng, part, c.n(60, 600), nmax=12) + C.random_pack_cases(rng, C.PACKERS, c.n(60, 600)) + C.random_cover_cases(rng, C.COVERS, c.n(60, 600))
-    c.corr("random-named", named, combos_of(["dict_str"], [PT]), judge=judge_named(judge))
+    c.corr("random-named", named, combos_of(["dict_str", "array_valueof", "array", "uarray"], [PT]), judge=judge_named(judge))
     c.corr("random-part", C.random_part_cases(rng, part, c.n(300, 4000), nmax=30), combos_of(["list"], [PT]), judge=judge)
     c.corr("random-pack", C.random_pack_cases(rng, C.PACKERS, c.n(300, 4000), nmax=c.n(20, 40)), combos_of(["list"], [PT]), judge=judge)
     c.corr("random-cover", C.random_cover_cases(rng, C.COVERS, c.n(400, 5000), nmax=c.n(20, 40)), combos_of(["list"], [PT]), judge=judge)
@@ -2075,9 +2159,10 @@ def C18(c):
         if rng.random() < 0.5:      # a total divisible by the number of bins (a perfect partition may exist: the bounds are tight there)
             vals[-1] += (-sum(vals)) % k
         for o in C.OBJS3:
-            algs = ["cg", "dp", "ilp"] + (["ckk", "snp", "rnp"] if o == "diff" and k <= 4 and n <= 13 else [])
-            if k >= 4 and n >= 14:
-                algs = [a for a in algs if a not in ("dp",)]
+            algs = ["cg", "dp"] + (["ilp"] if n <= 12 else []) + (["ckk", "snp", "rnp"] if o == "diff" and k <= 4 and n <= 13 else [])
+            # (ilp only up to 12 items: beyond, CBC's branch and bound can need more than ten gigabytes on some inputs)
+            if (k >= 4 and n >= 14) or k >= 5:
+                algs = [a for a in algs if a not in ("dp",)]      # (dp with 5 bins: tens of millions of states, more than ten gigabytes)
             grp = []
             for a in algs:
                 p = {"k": k}
@@ -2193,6 +2278,10 @@ def C15(c):
     for _ in range(c.n(60, 240)):     # bin completion on many different inputs on which the branching search runs (state surviving one search
         B, vals = gen.hard_bc_case(rng)   # - a default argument, a module-level list - changes what a later search finds)
         pool_cases.append({"alg": "bin_completion", "vals": [v for v in vals if v >= 1] or [1], "p": {"B": B}, "force_fmt": rng.choice(["list", "array"])})
+    for _ in range(c.n(6, 20)):       # ... and families with one bin size and one small pool of values: the same completions recur
+        B, fam = gen.hard_bc_family(rng, count=c.n(10, 16))
+        for vals in fam:
+            pool_cases.append({"alg": "bin_completion", "vals": list(vals), "p": {"B": B}, "force_fmt": "list"})
     pool_cases += C.random_pack_cases(rng, C.PACKERS + ["bin_completion"], c.n(6, 30), oversize=1.0)          # failing calls
     pool_cases += [{"alg": "cbldm", "vals": gen.rand_vals(rng, 4), "p": {"k": 3, "d": None, "cut": None}} for _ in range(c.n(4, 20))]   # ValueError
     pool_cases += [{"alg": "rnp", "vals": gen.rand_vals(rng, 7, "small"), "p": {"k": 6}} for _ in range(c.n(3, 10))]                  # KF1 calls interleaved
